@@ -59,12 +59,13 @@ type IdxEngine struct {
 	Iface     map[string]IfaceSummary // by method name
 	DutyArrs  map[string]bool         // accessor method names of attester.Duty that return per-validator arrays
 	DutyTypes map[string]bool         // rel-pkg.Type names of duty types
+	Strict    map[string]bool         // packages (relative path) in which an index of unknown provenance on a parameter array is a finding
 }
 
 func NewIdxEngine(p *Prog) *IdxEngine {
 	e := &IdxEngine{P: p, decls: map[*types.Func]*funcSyntax{}, sums: map[*types.Func]*FuncSummary{}, busy: map[*types.Func]bool{},
 		Iface: map[string]IfaceSummary{}, DutyArrs: map[string]bool{"ValidatorIndices": true, "CommitteeIndices": true, "ValidatorCommitteeIndices": true},
-		DutyTypes: map[string]bool{"services/attester.Duty": true}}
+		DutyTypes: map[string]bool{"services/attester.Duty": true}, Strict: map[string]bool{}}
 	for _, pk := range p.All {
 		if !IsProd(pk.PkgPath) {
 			continue
@@ -534,6 +535,12 @@ func (a *idxAnalysis) computeVarSpace(obj types.Object) string {
 	if len(appends) == 0 {
 		return "coll(" + a.localName(obj) + ")"
 	}
+	// a single conditional append: slices appended side by side in the same block share one filter space
+	if len(appends) == 1 {
+		if l := a.enclosingLoop(appends[0]); l != nil && !a.unconditionalIn(appends[0], l) {
+			return a.coAppendSpace(appends[0], obj)
+		}
+	}
 	// all appends unconditional, exactly one per iteration of one loop
 	var loop ast.Node
 	for _, ap := range appends {
@@ -866,7 +873,11 @@ func (a *idxAnalysis) checkIndex(x *ast.IndexExpr) {
 		}
 	case si == "":
 		a.sum.Unknown++
-		a.sum.Findings = append(a.sum.Findings, IdxFinding{"unknown-index", a.fs.key, x.Pos(), expr, "index of unknown provenance on an array of space " + sx})
+		// designated arrays (the duty's per-validator arrays): an index of unknown provenance is not accepted
+		_, isParam := paramIdx(sx)
+		if strings.HasPrefix(sx, "duty(") || (isParam && a.e.Strict[RelPkg(a.fs.pkg.PkgPath)]) {
+			a.sum.Findings = append(a.sum.Findings, IdxFinding{"unknown-index", a.fs.key, x.Pos(), expr, "index of unknown provenance on a per-validator array (space " + sx + ")"})
+		}
 	case si == sx:
 		a.sum.Accesses++
 	default:
@@ -1030,4 +1041,54 @@ func (a *idxAnalysis) mergeResult(res []string, set []bool, i int, sp string, _ 
 	if res[i] != sp {
 		res[i] = ""
 	}
+}
+
+// coAppendSpace names the filter space of a slice whose only append is the statement ap: all slices whose only
+// append is a sibling statement in the same block get the same name (they grow in lock-step).
+func (a *idxAnalysis) coAppendSpace(ap *ast.AssignStmt, obj types.Object) string {
+	blk, ok := a.parent[ap].(*ast.BlockStmt)
+	if !ok {
+		return "filter(" + a.localName(obj) + ")"
+	}
+	var names []string
+	for _, st := range blk.List {
+		as, ok := st.(*ast.AssignStmt)
+		if !ok || len(as.Lhs) != 1 || len(as.Rhs) != 1 {
+			continue
+		}
+		id, ok := as.Lhs[0].(*ast.Ident)
+		if !ok {
+			continue
+		}
+		call, ok := as.Rhs[0].(*ast.CallExpr)
+		if !ok || len(call.Args) != 2 || call.Ellipsis.IsValid() {
+			continue
+		}
+		if f, ok := call.Fun.(*ast.Ident); !ok || f.Name != "append" {
+			continue
+		}
+		o := a.info.ObjectOf(id)
+		if o == nil {
+			continue
+		}
+		// o's only append must be this one
+		n := 0
+		for _, x := range a.assigns[o] {
+			if xs, ok := x.(*ast.AssignStmt); ok && len(xs.Rhs) == 1 {
+				if c, ok := xs.Rhs[0].(*ast.CallExpr); ok {
+					if f, ok := c.Fun.(*ast.Ident); ok && f.Name == "append" {
+						n++
+					}
+				}
+			}
+		}
+		if n == 1 {
+			names = append(names, o.Name())
+		}
+	}
+	sort.Strings(names)
+	if len(names) == 0 {
+		return "filter(" + a.localName(obj) + ")"
+	}
+	return "filter(" + a.fs.key + "." + strings.Join(names, "+") + ")"
 }
